@@ -6,10 +6,10 @@ VARIABLE meth
 Seed == atoi(IOEnv.VERIF_SEED)
 Thorough == IOEnv.VERIF_TIER = "thorough"
 Scen == {s \in [meth : {"MS", "SS", "DC"}, args : (SUBSET ArgNames) \ {{}}, pre : [ArgNames -> Vals \cup {0}], post : {"none", "p", "q", "gx"},
-               vals : [ArgNames -> Vals], iters : {1, 50}, scaled : BOOLEAN] :
+               vals : [ArgNames -> Vals], iters : {0, 50}, scaled : BOOLEAN] :
            /\ s.pre.p # 0 /\ s.pre.q # 0
            /\ (~Thorough => (s.pre.gu = 0 /\ s.vals.gu = 1 /\ (s.pre.gx = 0 \/ "gx" \in s.args)))
-           /\ (s.iters = 1 => ("gx" \in s.args \/ "gu" \in s.args))
+           /\ (s.iters = 0 => ("gx" \in s.args \/ "gu" \in s.args))
            \* scaled states/controls (C14 x C19): a thin slice of the space
            /\ (s.scaled => s.post = "none" /\ s.iters = 50 /\ s.pre = [p |-> 1, q |-> 1, gx |-> 0, gu |-> 0])}
 InitS == meth \in Scen /\ Init
